@@ -57,8 +57,17 @@ pub fn observe_ls_dump<S: IndexedFull>(
     rng: &mut Rng,
     ranged_reads: usize,
 ) -> Result<Observed, String> {
-    let root = root_node(repo, snap).map_err(|e| format!("root node: {e}"))?;
-    observe_node(repo, &root, rng, ranged_reads)
+    match root_node_opt(repo, snap)? {
+        // an empty source produces an empty root tree (no `r` entry at all)
+        None => Ok(Observed::new()),
+        Some(root) => observe_node(repo, &root, rng, ranged_reads),
+    }
+}
+
+/// the `r` node of the snapshot's root tree, None if the root tree has no such entry
+pub fn root_node_opt<S: IndexedFull>(repo: &Repository<S>, snap: &SnapshotFile) -> Result<Option<Node>, String> {
+    let tree = repo.get_tree(&snap.tree).map_err(|e| format!("root tree: {}", crate::repo::errstr(&e)))?;
+    Ok(tree.nodes.into_iter().find(|n| n.name().as_bytes() == ROOT.as_bytes()))
 }
 
 pub fn observe_node<S: IndexedFull>(
@@ -68,16 +77,16 @@ pub fn observe_node<S: IndexedFull>(
     ranged_reads: usize,
 ) -> Result<Observed, String> {
     let mut obs = Observed::new();
-    let ls = repo.ls(root, &LsOptions::default()).map_err(|e| format!("ls: {e}"))?;
+    let ls = repo.ls(root, &LsOptions::default()).map_err(|e| format!("ls: {}", crate::repo::errstr(&e)))?;
     for item in ls {
-        let (path, node) = item.map_err(|e| format!("ls item: {e}"))?;
+        let (path, node) = item.map_err(|e| format!("ls item: {}", crate::repo::errstr(&e)))?;
         let key = path_to_pk(&path);
         let content = if node.is_file() {
             let mut buf = Vec::new();
-            repo.dump(&node, &mut buf).map_err(|e| format!("dump {}: {e}", path.display()))?;
+            repo.dump(&node, &mut buf).map_err(|e| format!("dump {}: {}", path.display(), crate::repo::errstr(&e)))?;
             // ranged reads must agree with the dump
             if ranged_reads > 0 {
-                let of = repo.open_file(&node).map_err(|e| format!("open_file {}: {e}", path.display()))?;
+                let of = repo.open_file(&node).map_err(|e| format!("open_file {}: {}", path.display(), crate::repo::errstr(&e)))?;
                 for i in 0..ranged_reads {
                     let len = buf.len();
                     let (off, l) = match i {
@@ -92,7 +101,7 @@ pub fn observe_node<S: IndexedFull>(
                     };
                     let got = repo
                         .read_file_at(&of, off, l)
-                        .map_err(|e| format!("read_file_at {} off {off} len {l}: {e}", path.display()))?;
+                        .map_err(|e| format!("read_file_at {} off {off} len {l}: {}", path.display(), crate::repo::errstr(&e)))?;
                     let exp: &[u8] = if off >= len { &[] } else { &buf[off..(off + l).min(len)] };
                     if got.as_ref() != exp {
                         return Err(format!(
@@ -176,8 +185,10 @@ pub fn restore_to<S: IndexedFull>(
     dest: &Path,
     opts: &RestoreOptions,
 ) -> Result<(), String> {
-    let root = root_node(repo, snap).map_err(|e| format!("root node: {e}"))?;
-    restore_node_to(repo, &root, dest, opts)
+    match root_node_opt(repo, snap)? {
+        None => std::fs::create_dir_all(dest).map_err(|e| format!("create dest: {e}")),
+        Some(root) => restore_node_to(repo, &root, dest, opts),
+    }
 }
 
 pub fn restore_node_to<S: IndexedFull>(
@@ -187,10 +198,10 @@ pub fn restore_node_to<S: IndexedFull>(
     opts: &RestoreOptions,
 ) -> Result<(), String> {
     let d = LocalDestination::new(dest.to_str().ok_or("dest not utf8")?, true, !root.is_dir())
-        .map_err(|e| format!("LocalDestination: {e}"))?;
-    let ls = repo.ls(root, &LsOptions::default()).map_err(|e| format!("ls: {e}"))?;
-    let plan = repo.prepare_restore(opts, ls.clone(), &d, false).map_err(|e| format!("prepare_restore: {e}"))?;
-    repo.restore(plan, opts, ls, &d).map_err(|e| format!("restore: {e}"))
+        .map_err(|e| format!("LocalDestination: {}", crate::repo::errstr(&e)))?;
+    let ls = repo.ls(root, &LsOptions::default()).map_err(|e| format!("ls: {}", crate::repo::errstr(&e)))?;
+    let plan = repo.prepare_restore(opts, ls.clone(), &d, false).map_err(|e| format!("prepare_restore: {}", crate::repo::errstr(&e)))?;
+    repo.restore(plan, opts, ls, &d).map_err(|e| format!("restore: {}", crate::repo::errstr(&e)))
 }
 
 #[derive(Clone, Copy, Debug)]
